@@ -467,8 +467,30 @@ package fit
 
 //@ pred archOK(dm *defmsg) := isLE(dm.arch) || isBE(dm.arch)
 
+//@@ C02: the values of the field bytes in the definition's byte order
+//@ spec tmpU16(d *decoder, dm *defmsg) uint16 := ite(isLE(dm.arch), uint16(d.tmp[0])|uint16(d.tmp[1])<<8, uint16(d.tmp[1])|uint16(d.tmp[0])<<8)
+//@ spec tmpU64(d *decoder, dm *defmsg) uint64 := ite(isLE(dm.arch),
+//@  | uint64(d.tmp[0])|uint64(d.tmp[1])<<8|uint64(d.tmp[2])<<16|uint64(d.tmp[3])<<24|uint64(d.tmp[4])<<32|uint64(d.tmp[5])<<40|uint64(d.tmp[6])<<48|uint64(d.tmp[7])<<56,
+//@  | uint64(d.tmp[7])|uint64(d.tmp[6])<<8|uint64(d.tmp[5])<<16|uint64(d.tmp[4])<<24|uint64(d.tmp[3])<<32|uint64(d.tmp[2])<<40|uint64(d.tmp[1])<<48|uint64(d.tmp[0])<<56)
+
 //@ func (d *decoder) parseFitField(dm *defmsg, dfield fieldDef, fieldv reflect.Value) (err error)
 //@   props C01
+//@@ C02: a scalar native field receives exactly the value of its bytes (the struct field is at least as wide
+//@@ as the base type whenever the definition agrees with the profile, C15)
+//@   ensures [u8] {C02} (dfield.btype == types.BaseByte || dfield.btype == types.BaseEnum || dfield.btype == types.BaseUint8 || dfield.btype == types.BaseUint8z) && rvwid(fieldv) >= 8 ==> err == nil && rvint(fieldv) == int(d.tmp[0])
+//@   ensures [s8] {C02} dfield.btype == types.BaseSint8 && rvwid(fieldv) >= 8 ==> err == nil && rvint(fieldv) == int(int8(d.tmp[0]))
+//@   ensures [s16] {C02} dfield.btype == types.BaseSint16 && rvwid(fieldv) >= 16 ==> err == nil && rvint(fieldv) == int(int16(tmpU16(d, dm)))
+//@   ensures [u16] {C02} (dfield.btype == types.BaseUint16 || dfield.btype == types.BaseUint16z) && rvwid(fieldv) >= 16 ==> err == nil && rvint(fieldv) == int(tmpU16(d, dm))
+//@   ensures [s32] {C02} dfield.btype == types.BaseSint32 && rvwid(fieldv) >= 32 ==> err == nil && rvint(fieldv) == int(int32(tmpU32(d, dm)))
+//@   ensures [u32] {C02} (dfield.btype == types.BaseUint32 || dfield.btype == types.BaseUint32z) && rvwid(fieldv) >= 32 ==> err == nil && rvint(fieldv) == int(tmpU32(d, dm))
+//@   ensures [f32] {C02} dfield.btype == types.BaseFloat32 && rvwid(fieldv) >= 32 ==> err == nil && (rvflt(fieldv) == float64(f32bits(tmpU32(d, dm))) || isNaN(float64(f32bits(tmpU32(d, dm)))))
+//@   ensures [f64] {C02} dfield.btype == types.BaseFloat64 && rvwid(fieldv) == 64 ==> err == nil && (rvflt(fieldv) == f64bits(tmpU64(d, dm)) || isNaN(f64bits(tmpU64(d, dm))))
+//@   ensures [tmp-kept] {C02} forall k in 0..255 :: d.tmp[k] == old(d.tmp[k])
+//@@ strings: the bytes up to the first NUL (or the whole field); an empty string leaves the field as it is
+//@   ensures [str] {C02} dfield.btype == types.BaseString && dfield.size > 0 && d.tmp[0] != 0 ==> err == nil && 0 < len(rvstr(fieldv)) && len(rvstr(fieldv)) <= int(dfield.size) &&
+//@  |   (forall k in 0..len(rvstr(fieldv)) :: d.tmp[k] != 0 && rvstr(fieldv)[k] == d.tmp[k]) && (len(rvstr(fieldv)) == int(dfield.size) || d.tmp[len(rvstr(fieldv))] == 0)
+//@   ensures [str-empty] {C02} dfield.btype == types.BaseString && (dfield.size == 0 || d.tmp[0] == 0) ==> err == nil && rvstr(fieldv) == old(rvstr(fieldv))
+//@   loop 0 invariant [nonul] {C02} forall k in 0..j :: d.tmp[k] != 0
 //@   ensures [other-cells] {C12} forall c int :: c != rvcell(fieldv) ==> rvtimeat(fieldv, c) == old(rvtimeat(fieldv, c))
 //@   ensures [not-clean-eof] !iserr(err, errReadSize)
 //@   locals j int
@@ -529,12 +551,48 @@ package fit
 //@   props C12
 //@   concl advance(ts, int32(ts&0x1F), h)&0x1F == uint32(h&0x1F) && advance(ts, int32(ts&0x1F), h)-ts < 32
 
+//@@ C02: the last `back` bytes consumed from the frame, as they are in the stream
+//@ spec wb(d *decoder, back int, k int) byte := instream(d.r, framepos(d)+d.bytes.n-back+k)
+//@ spec wireLE(d *decoder, n int) uint32 := ite(n == 1, uint32(wb(d, 1, 0)), ite(n == 2, uint32(wb(d, 2, 0))|uint32(wb(d, 2, 1))<<8,
+//@  | ite(n == 3, uint32(wb(d, 3, 0))|uint32(wb(d, 3, 1))<<8|uint32(wb(d, 3, 2))<<16, uint32(wb(d, 4, 0))|uint32(wb(d, 4, 1))<<8|uint32(wb(d, 4, 2))<<16|uint32(wb(d, 4, 3))<<24)))
+//@ spec wireBE(d *decoder, n int) uint32 := ite(n == 1, uint32(wb(d, 1, 0)), ite(n == 2, uint32(wb(d, 2, 0))<<8|uint32(wb(d, 2, 1)),
+//@  | ite(n == 3, uint32(wb(d, 3, 0))<<16|uint32(wb(d, 3, 1))<<8|uint32(wb(d, 3, 2)), uint32(wb(d, 4, 0))<<24|uint32(wb(d, 4, 1))<<16|uint32(wb(d, 4, 2))<<8|uint32(wb(d, 4, 3)))))
+//@ spec pure extend32(v uint32, n int, neg bool) uint32 := ite(neg && n == 1, v|0xFFFFFF00, ite(neg && n == 2, v|0xFFFF0000, ite(neg && n == 3, v|0xFF000000, v)))
+//@@ the 32-bit value that a field of n (1..4) wire bytes denotes: byte order of the definition, sign-extended iff the base type is signed
+//@ spec wireVal(d *decoder, dm *defmsg, n int, signed bool) uint32 := ite(isLE(dm.arch), extend32(wireLE(d, n), n, signed && wb(d, n, n-1)&0x80 != 0), extend32(wireBE(d, n), n, signed && wb(d, n, 0)&0x80 != 0))
+
+//@@ the padding loops, byte by byte (k = 0..3): bytes already in place are the wire bytes, filled bytes are the pad byte
+//@ pred w1(d *decoder, dsize int, k int, j int, pad byte) := (k < dsize ==> d.tmp[k] == wb(d, dsize, k)) && (dsize <= k && k < j ==> d.tmp[k] == pad)
+//@ pred w2(d *decoder, dsize int, padding int, k int, j int) := (k <= j ==> d.tmp[k] == wb(d, dsize, k)) && (j < k && k < dsize ==> d.tmp[k+padding] == wb(d, dsize, k))
+//@ pred w3(d *decoder, dsize int, padding int, k int, j int, pad byte) := (k < dsize ==> d.tmp[k+padding] == wb(d, dsize, k)) && (k < j ==> d.tmp[k] == pad)
+
 //@ func (d *decoder) parseDataFields(dm *defmsg, knownMsg bool, msgv reflect.Value) (r reflect.Value, err error)
+//@@ C02: the fixed 4-byte kinds (time, coordinates) are decoded from the value their wire bytes denote
+//@   callsite parseTimeStamp [size] {C02} 1 <= dsize && dsize <= 4
+//@   callsite parseTimeStamp [wire1] {C02} dsize == 1 ==> tmpU32(d, dm) == wireVal(d, dm, 1, dfield.btype.Signed())
+//@   callsite parseTimeStamp [wire2] {C02} dsize == 2 ==> tmpU32(d, dm) == wireVal(d, dm, 2, dfield.btype.Signed())
+//@   callsite parseTimeStamp [wire3] {C02} dsize == 3 ==> tmpU32(d, dm) == wireVal(d, dm, 3, dfield.btype.Signed())
+//@   callsite parseTimeStamp [wire4] {C02} dsize == 4 ==> tmpU32(d, dm) == wireVal(d, dm, 4, dfield.btype.Signed())
+//@   callsite NewLatitude [size] {C02} 1 <= dsize && dsize <= 4
+//@   callsite NewLatitude [wire1] {C02} dsize == 1 ==> tmpU32(d, dm) == wireVal(d, dm, 1, dfield.btype.Signed())
+//@   callsite NewLatitude [wire2] {C02} dsize == 2 ==> tmpU32(d, dm) == wireVal(d, dm, 2, dfield.btype.Signed())
+//@   callsite NewLatitude [wire3] {C02} dsize == 3 ==> tmpU32(d, dm) == wireVal(d, dm, 3, dfield.btype.Signed())
+//@   callsite NewLatitude [wire4] {C02} dsize == 4 ==> tmpU32(d, dm) == wireVal(d, dm, 4, dfield.btype.Signed())
+//@   callsite NewLongitude [size] {C02} 1 <= dsize && dsize <= 4
+//@   callsite NewLongitude [wire1] {C02} dsize == 1 ==> tmpU32(d, dm) == wireVal(d, dm, 1, dfield.btype.Signed())
+//@   callsite NewLongitude [wire2] {C02} dsize == 2 ==> tmpU32(d, dm) == wireVal(d, dm, 2, dfield.btype.Signed())
+//@   callsite NewLongitude [wire3] {C02} dsize == 3 ==> tmpU32(d, dm) == wireVal(d, dm, 3, dfield.btype.Signed())
+//@   callsite NewLongitude [wire4] {C02} dsize == 4 ==> tmpU32(d, dm) == wireVal(d, dm, 4, dfield.btype.Signed())
+//@   callsite parseFitField [wire] {C02} dsize == int(dfield.size) && (forall k in 0..dsize :: d.tmp[k] == wb(d, dsize, k))
+//@   callsite parseFitFieldArray [wire] {C02} dsize == int(dfield.size) && (forall k in 0..dsize :: d.tmp[k] == wb(d, dsize, k))
+//@   loop 1 invariant [wire] {C02} dsize <= j && j <= 4 && w1(d, dsize, 0, j, pad) && w1(d, dsize, 1, j, pad) && w1(d, dsize, 2, j, pad) && w1(d, dsize, 3, j, pad)
+//@   loop 2 invariant [wire] {C02} dsize+padding == 4 && -1 <= j && j < dsize && w2(d, dsize, padding, 0, j) && w2(d, dsize, padding, 1, j) && w2(d, dsize, padding, 2, j) && w2(d, dsize, padding, 3, j)
+//@   loop 3 invariant [wire] {C02} dsize+padding == 4 && w3(d, dsize, padding, 0, j, pad) && w3(d, dsize, padding, 1, j, pad) && w3(d, dsize, padding, 2, j, pad) && w3(d, dsize, padding, 3, j, pad)
 //@   requires [content] {C02 C04 C12 C13} inv_content(d)
 //@   ensures [content] {C02 C04 C12 C13} inv_content(d)
 //@   requires [def-of-record] {C13} d.bytes.n >= 1 && dm == lastDef(d, int(recSlot(lastByte(d))))
-//@   use field_nums(dm.globalMsgNum)
-//@   use ts_field_distinct(dm.globalMsgNum)
+//@   use {C12} field_nums(dm.globalMsgNum)
+//@   use {C12} ts_field_distinct(dm.globalMsgNum)
 //@   ensures [ts-kept] {C12} no253(dm) ==> d.timestamp == old(d.timestamp) && d.lastTimeOffset == old(d.lastTimeOffset)
 //@   ensures [ts-cell-kept] {C12} no253(dm) && knownMsg && pfound(dm.globalMsgNum, 253) ==> rvtimeat(msgv, pf(dm.globalMsgNum, 253).sindex) == old(rvtimeat(msgv, pf(dm.globalMsgNum, 253).sindex))
 //@   loop 0 invariant [ts-kept] {C12} (forall k in 0..rangeindex+1 :: dm.fieldDefs[k].num != 253) ==> d.timestamp == old(d.timestamp) && d.lastTimeOffset == old(d.lastTimeOffset)
@@ -543,7 +601,7 @@ package fit
 //@   loop 4 invariant [content] {C02 C04 C12 C13} inv_content(d)
 //@   props C01 C10 C11
 //@   ensures [not-clean-eof] !iserr(err, errReadSize)
-//@   locals rangeindex int, j int, dsize int, padding int
+//@   locals rangeindex int, j int, dsize int, padding int, pad byte, dfield fieldDef
 //@   reveal compat
 //@   requires dec_inv(d) && wf_defmsg(dm)
 //@   requires [known] knownMsg == knownMsgNums[dm.globalMsgNum]
